@@ -27,26 +27,35 @@ Candidates(t, id, via) == SelectSeq(Slots(via), LAMBDA i : FreeFor(t, id, ChildS
 Alloc(t, id, via) == IF Candidates(t, id, via) = <<>> THEN NoAddr ELSE ChildSlot(via, Head(Candidates(t, id, via)))
 
 CONSTANTS Ids, Vias, MaxDepth
-VARIABLES dhcp, last
-vars == <<dhcp, last>>
-Init == dhcp = [i \in Ids |-> NoAddr] /\ last = [op |-> "init"]
+VARIABLES dhcp, last, saved      \* saved: the table written by the last save_dhcp() (one file), [fmt, tab] or none
+vars == <<dhcp, last, saved>>
+NoFile == [fmt |-> "none", tab |-> <<>>]
+Init == dhcp = [i \in Ids |-> NoAddr] /\ last = [op |-> "init"] /\ saved = NoFile
 Request(id, via) == LET a == Alloc(dhcp, id, via) IN
    /\ dhcp' = IF a = NoAddr THEN dhcp ELSE [dhcp EXCEPT ![id] = a]
-   /\ last' = [op |-> "req", id |-> id, via |-> via, addr |-> a]
+   /\ last' = [op |-> "req", id |-> id, via |-> via, addr |-> a] /\ UNCHANGED saved
 \* MESH_ADDR_RELEASE from a node holding address a (only leased addresses are released by honest nodes)
 Release(id) == /\ dhcp[id] # NoAddr
-               /\ dhcp' = [dhcp EXCEPT ![id] = NoAddr] /\ last' = [op |-> "rel", id |-> id, addr |-> dhcp[id]]
-SaveLoad(fmt) == /\ dhcp' = dhcp /\ last' = [op |-> "saveload", fmt |-> fmt]
+               /\ dhcp' = [dhcp EXCEPT ![id] = NoAddr] /\ last' = [op |-> "rel", id |-> id, addr |-> dhcp[id]] /\ UNCHANGED saved
+SaveLoad(fmt) == /\ dhcp' = dhcp /\ last' = [op |-> "saveload", fmt |-> fmt] /\ UNCHANGED saved    \* save, load into an empty master
+\* save now, load later into the SAME (meanwhile changed) master: every saved pair is back, whoever held one of the
+\* saved addresses in between loses it (an address is never mapped twice), other leases stay
+Save(fmt) == /\ saved' = [fmt |-> fmt, tab |-> dhcp] /\ dhcp' = dhcp /\ last' = [op |-> "save", fmt |-> fmt]
+Merge(cur, file) == [i \in DOMAIN cur |-> IF file[i] # NoAddr THEN file[i]
+                                          ELSE IF \E j \in DOMAIN file : file[j] # NoAddr /\ file[j] = cur[i] THEN NoAddr ELSE cur[i]]
+Load == /\ saved # NoFile /\ dhcp' = Merge(dhcp, saved.tab) /\ last' = [op |-> "load", fmt |-> saved.fmt] /\ UNCHANGED saved
 Next == \/ \E id \in Ids, via \in Vias : Request(id, via)
         \/ \E id \in Ids : Release(id)
-        \/ \E fmt \in {"json", "bin"} : SaveLoad(fmt)
+        \/ \E fmt \in {"json", "bin"} : SaveLoad(fmt) \/ Save(fmt)
+        \/ Load
 Spec == Init /\ [][Next]_vars
 
 C16_Injective == Injective(dhcp)
-C16_ValidChild == [][\A id \in Ids : dhcp'[id] # dhcp[id] /\ dhcp'[id] # NoAddr =>
+C16_ValidChild == [][\A id \in Ids : dhcp'[id] # dhcp[id] /\ dhcp'[id] # NoAddr /\ last'.op # "load" =>
                        \E via \in Vias : last'.op = "req" /\ last'.via = via /\ ValidLease(dhcp'[id], via, id, dhcp)]_vars
 C16_OnlyRequesterChanges == [][last'.op = "req" => \A j \in Ids : j # last'.id => dhcp'[j] = dhcp[j]]_vars
 C16_ReleaseFrees == [][last'.op = "rel" => dhcp'[last'.id] = NoAddr /\ \A j \in Ids : dhcp'[j] # last'.addr]_vars
+C16_LoadRestores == [][last'.op = "load" => \A i \in Ids : saved.tab[i] # NoAddr => dhcp'[i] = saved.tab[i]]_vars
 C16_PersistIdentity == [][last'.op = "saveload" => dhcp' = dhcp]_vars
 \* a full parent refuses (no lease, table untouched) rather than handing out a duplicate
 C16_RefuseWhenFull == [][last'.op = "req" /\ last'.addr = NoAddr => dhcp' = dhcp]_vars
